@@ -560,4 +560,31 @@ FIXED_PAIRS = [
     ({'a': 1, 'b': 2, 'c': 3}, {'c': 3, 'b': 2, 'a': 1}), ({'a': 1, 'b': 2, 'c': 3}, {'d': 4}),
     ('hello world', 'hallo wörld'), ('abc', ''), ('', 'abc'), ([1, 2, 3, 4], [1, 3, 2, 4]),
     ([{'a': 1}, {'b': 2}], [{'b': 2}, {'a': 1}]), ({'k': [1, {'x': 'y'}]}, {'k': [1, {'x': 'z'}, 2]}),
+    # Python-equal scalars of different type inside the trimmed equal prefix / suffix of a list that differs elsewhere
+    ([1, 2, 3], [1.0, 2, 4, 5]), ([0, 'a', True], [False, 'b', 1]), ([5, 'x', 2.0], ['y', 'z', 2]),
+    ([[1, 2], 7, 1], [[1.0, 2], 8, 9, True]), ({'k': [1, 2, 3]}, {'k': [1.0, 2, 4, 5]}),
 ]
+
+
+def gen_cross_type_pair(rng):
+    """two lists that share a prefix and/or suffix of Python-equal scalars of DIFFERENT type (1 / 1.0 / true, 0 / 0.0 / false)
+    and differ in the middle, optionally nested"""
+    twins = [(1, 1.0), (1, True), (1.0, True), (0, False), (0, 0.0), (2, 2.0), (10, 10.0), (0.0, False)]
+
+    def side(n):
+        ps = [rng.choice(twins) for _ in range(n)]
+        return [p[rng.randint(0, 1)] for p in ps], [p[rng.randint(0, 1)] for p in ps], ps
+    pa, pb, ps = side(rng.randint(0, 2))
+    pa, pb = [p[0] for p in ps], [p[1] for p in ps]
+    qs = [rng.choice(twins) for _ in range(rng.randint(0, 2))]
+    qa, qb = [p[1] for p in qs], [p[0] for p in qs]
+    ma = [gen_scalar(rng) for _ in range(rng.randint(1, 3))]
+    mb = [gen_scalar(rng) for _ in range(rng.randint(0, 3))]
+    a, b = pa + ma + qa, pb + mb + qb
+    r = rng.random()
+    if r < 0.25:
+        return {'k': a, 'x': 1}, {'k': b, 'x': 1}
+    if r < 0.4:
+        return [a, 5], [b, 5, 6]
+    return a, b
+
